@@ -80,6 +80,7 @@ func cmdConc(args []string) {
 				emit(conc.BulkAtomics(s, *bulkG, *bulk))
 			case "map":
 				emit(conc.BulkMaps(s, *bulkG, *bulk/4+1))
+				emit(conc.BulkSnapshots(s, *bulkG, *bulk/4+1))
 			case "gas":
 				l, err := env.BulkGas(s, *bulkG, *bulk/8+1)
 				if err != nil {
